@@ -293,6 +293,17 @@ func c01RouteGen(g *hx.Gen) {
 			}
 		}
 	}
+	// two designated fallback sites with different hosts (declaration order decides: known finding)
+	for _, order := range []bool{false, true} {
+		a, b := c01Site{"fa.test", true, "fa.test"}, c01Site{"fb.test/foo", true, "fb.test"}
+		sites := []c01Site{a, mk("a.com"), b}
+		if order {
+			sites = []c01Site{b, mk("a.com"), a}
+		}
+		for _, h := range []string{"zzz", "a.com", "fa.test", "fb.test"} {
+			c01Emit(g, sites, h, "/foo", 1)
+		}
+	}
 	// seeded random: up to 12 sites out of the alphabet with random spellings and requests aimed at them
 	N := 6000
 	if g.Thorough() {
